@@ -156,7 +156,31 @@ pub fn gen_spline_case<T: Flt>(rng: &mut Rng, o: &SplineOpts) -> (Spec1<T>, Labe
         },
     );
     spec.dynamic = rng.chance(0.2);
+    random_layouts1(rng, &mut spec);
     (spec, labels)
+}
+
+/// with probability 0.3 the data (and an explicit axis) are stored with a random memory
+/// layout (permuted memory order, steps, reversed axes, windows); logical contents unchanged
+pub fn random_layouts1<T: Flt>(rng: &mut Rng, spec: &mut Spec1<T>) {
+    if rng.chance(0.3) {
+        spec.data_lay = crate::lay::Layout::random(rng, spec.data.ndim());
+        if spec.x.is_some() && rng.chance(0.5) {
+            spec.x_lay = crate::lay::Layout::random(rng, 1);
+        }
+    }
+}
+
+pub fn random_layouts2<T: Flt>(rng: &mut Rng, spec: &mut Spec2<T>) {
+    if rng.chance(0.3) {
+        spec.data_lay = crate::lay::Layout::random(rng, spec.data.ndim());
+        if spec.x.is_some() && rng.chance(0.5) {
+            spec.x_lay = crate::lay::Layout::random(rng, 1);
+        }
+        if spec.y.is_some() && rng.chance(0.5) {
+            spec.y_lay = crate::lay::Layout::random(rng, 1);
+        }
+    }
 }
 
 pub struct LinearOpts {
@@ -283,6 +307,7 @@ pub fn gen_linear_case<T: Flt>(rng: &mut Rng, o: &LinearOpts) -> (Spec1<T>, Labe
         },
     );
     spec.dynamic = rng.chance(0.2);
+    random_layouts1(rng, &mut spec);
     (spec, labels)
 }
 
@@ -385,6 +410,7 @@ pub fn gen_grid_case<T: Flt>(rng: &mut Rng, o: &GridOpts) -> (Spec2<T>, Labels2)
         },
     );
     spec.dynamic = rng.chance(0.2);
+    random_layouts2(rng, &mut spec);
     (spec, labels)
 }
 
